@@ -5,6 +5,7 @@ impl JsError {
     #[verifier::external_body]
     pub fn from_str(s: &str) -> JsError { unimplemented!() }
 }
+impl core::fmt::Debug for JsError { #[verifier::external_body] fn fmt(&self, f: &mut core::fmt::Formatter<'_>) -> core::fmt::Result { unimplemented!() } }
 
 /// sequence of references to the elements of a sequence (what a slice iterator yields)
 pub open spec fn refs<'a, T>(s: Seq<T>) -> Seq<&'a T> { s.map_values(|x: T| &x) }
